@@ -7,10 +7,10 @@ def all_contracts(src):
     if k in _cache:
         return _cache[k]
     from spec import fields as F
-    from . import validators, strings, composeid, sections, manifests, io, tisections, checksums, imagesadd, composedir, forest, gates, canon, containers
+    from . import validators, strings, composeid, sections, manifests, io, tisections, checksums, imagesadd, composedir, forest, gates, canon, containers, discinfo
     T = F.Tables(src.mods or src.import_native())
     reg = {}
-    for c in validators.flat_contracts(src, T) + strings.contracts(src, T) + composeid.contracts(src, T) + sections.contracts(src, T) + manifests.contracts(src, T) + io.contracts(src, T) + tisections.contracts(src, T) + checksums.contracts(src, T) + imagesadd.contracts(src, T) + composedir.contracts(src, T) + forest.contracts(src, T) + gates.contracts(src, T) + canon.contracts(src, T) + containers.contracts(src, T):
+    for c in validators.flat_contracts(src, T) + strings.contracts(src, T) + composeid.contracts(src, T) + sections.contracts(src, T) + manifests.contracts(src, T) + io.contracts(src, T) + tisections.contracts(src, T) + checksums.contracts(src, T) + imagesadd.contracts(src, T) + composedir.contracts(src, T) + forest.contracts(src, T) + gates.contracts(src, T) + canon.contracts(src, T) + containers.contracts(src, T) + discinfo.contracts(src, T):
         if c.key:
             reg[c.key] = c
     _cache[k] = reg
